@@ -30,10 +30,11 @@ pub struct Encoder<'a> {
     pub forms: Forms,
     pub out: Vec<u8>,
     pub strings: Vec<String>,
+    pub refs: Vec<String>,
 }
 
 pub fn ref_encode(reg: &Registry, ty: &Ty, val: &Val, forms: Forms) -> Vec<u8> {
-    let mut e = Encoder { reg, forms, out: Vec::new(), strings: Vec::new() };
+    let mut e = Encoder { reg, forms, out: Vec::new(), strings: Vec::new(), refs: Vec::new() };
     e.encode(ty, val);
     e.out
 }
@@ -135,6 +136,23 @@ impl<'a> Encoder<'a> {
             (Ty::Char, Val::Char(c)) => self.fixed(*c as u128, 2),
             (Ty::Str, Val::Str(s)) => self.string(s),
             (Ty::DedupStr, Val::Str(s)) => self.dedup_string(s),
+            (Ty::SharedStrs, Val::Seq(items)) => {
+                // equal strings are one object
+                self.var_u32(items.len() as u32);
+                for it in items {
+                    let s = match it {
+                        Val::Str(s) => s,
+                        o => panic!("model: shared string {o:?}"),
+                    };
+                    if let Some(i) = self.refs.iter().position(|x| x == s) {
+                        self.var_u32(i as u32 + 1);
+                    } else {
+                        self.refs.push(s.clone());
+                        self.var_u32(0);
+                        self.string(s);
+                    }
+                }
+            }
             (Ty::Duration, Val::Tuple(p)) => {
                 self.fixed(p[0].as_u(), 8);
                 self.fixed(p[1].as_u(), 4);
